@@ -285,7 +285,12 @@ func compareView(sys *tarfs.FS, t *otree, rnd func(int) int) []failure {
 			}
 			fi, err := sys.Stat(b.path)
 			if err != nil {
-				add("alias", "Stat(%q): %v, but %q is a link to directory %q which has that entry", b.path, err, w.path, pathOf(tn))
+				kind := "alias"
+				if tn.lit != strings.Join(w.node.lexTarget, "/") {
+					// The directory is registered under another spelling than the link's target.
+					kind = "alias-literal"
+				}
+				add(kind, "Stat(%q): %v, but %q is a link to directory %q which has that entry", b.path, err, w.path, pathOf(tn))
 				continue
 			}
 			if b.node.kind != 's' && typeLetter(fi.Mode()) != t.typeOf(b.node) {
